@@ -203,7 +203,12 @@ class MHLHistory:
     def renamed_path_with_previous_path(self):
         all_paths = {}
         for hash_list in self.hash_lists:
-            all_paths.update(hash_list.renamed_path_with_previous_path(self.get_root_path()))
+            renamed_paths = hash_list.renamed_path_with_previous_path(self.get_root_path())
+            # a file that was renamed before and is renamed again is known under its latest name only
+            for previous_path, path in all_paths.items():
+                if path in renamed_paths:
+                    all_paths[previous_path] = renamed_paths[path]
+            all_paths.update(renamed_paths)
         for child_history in self.child_histories:
             all_paths.update(child_history.renamed_path_with_previous_path())
         return all_paths
